@@ -88,6 +88,11 @@ impl Prop for C06 {
                         }
                     }
                 }
+                // the names themselves are part of the documented semantics (x_i with i = 2 is x_2)
+                let expected = case.expected_names();
+                if let Some((bad, _)) = la.vars.iter().find(|v| !v.0.starts_with('$') && !expected.contains(&v.0)) {
+                    fails.push(("unexpected-variable-name".to_string(), ctx(format!("{bad:?} is not one of {expected:?}"))));
+                }
                 if let Err(d) = same_in_order(&la, &lb) {
                     fails.push(("expansion-differs-from-hand-unrolled".to_string(), ctx(d)));
                 }
